@@ -3,6 +3,7 @@ package main
 // Calls: builtins, conversions, library models, contract calls, inlining, opaque calls.
 
 import (
+	"sort"
 	"fmt"
 	"go/ast"
 	"go/token"
@@ -274,15 +275,19 @@ func (vc *VC) dispatchCall(st *State, call *ast.CallExpr, recv *Term, args []Ter
 	info := vc.info()
 	// anchored assertions / ghost updates (before)
 	items := vc.anchored[call]
+	var pre *State
+	if len(items) > 0 {
+		pre = st.clone()
+	}
 	for _, it := range items {
 		if it.gu.When == "before" {
-			vc.applyAnchored(st, call, it, nil)
+			vc.applyAnchored(st, call, it, nil, pre)
 		}
 	}
 	rs := vc.dispatchCall2(st, call, recv, args, info)
 	for _, it := range items {
 		if it.gu.When == "after" {
-			vc.applyAnchored(st, call, it, rs)
+			vc.applyAnchored(st, call, it, rs, pre)
 		}
 	}
 	return rs
@@ -595,7 +600,36 @@ func (vc *VC) contractCall(st *State, call *ast.CallExpr, c *FuncContract, fn *t
 	if fn.Pkg() != nil {
 		pkgPath = fn.Pkg().Path()
 	}
+	if c.CallsArg >= 0 && c.CallsArg < len(call.Args) {
+		// the callee invokes its function-literal argument exactly once (e.g. bbolt Update/View)
+		if fl, ok := ast.Unparen(call.Args[c.CallsArg]).(*ast.FuncLit); ok {
+			var cargs []Term
+			if fl.Type.Params != nil {
+				for _, f := range fl.Type.Params.List {
+					for range f.Names {
+						cargs = append(cargs, vc.unknown("cbarg", vc.info().Types[f.Type].Type))
+					}
+				}
+			}
+			crs := vc.inlineBody(st, fl.Type, fl.Body, nil, Term{}, cargs, vc.cur().info, vc.cur().pkg, "callback of "+c.Key, fl)
+			for i, r := range crs {
+				names[fmt.Sprintf("cbresult%d", i)] = Val{r, nil}
+			}
+			pre = st.clone()
+		}
+	}
 	switch {
+	case c.WritesArg >= 0:
+		// only the object passed as argument N (and slice/box contents) may change
+		if c.WritesArg < len(call.Args) {
+			t := vc.typeOf(call.Args[c.WritesArg])
+			vc.havocObjectType(st, t, 0)
+		}
+		for _, n := range vc.sortedUniverse() {
+			if strings.HasPrefix(n, "Elems$") || strings.HasPrefix(n, "Box$") {
+				st.heap[n] = vc.fresh(n, vc.universe[n])
+			}
+		}
 	case c.Pure || c.NoHeap:
 	case c.HasAssigns:
 		for _, a := range c.Assigns {
@@ -632,6 +666,64 @@ func (vc *VC) contractCall(st *State, call *ast.CallExpr, c *FuncContract, fn *t
 		st.assume(vc.nameTerm("ens", vc.specEvalBool(env2, e.Expr)))
 	}
 	return rs
+}
+
+// objectTypePatterns records the field arrays of the struct type t points to as loop effects.
+func (vc *VC) objectTypePatterns(t types.Type, ef *effects, depth int) {
+	if t == nil || depth > 3 {
+		return
+	}
+	t = types.Unalias(t)
+	if p, ok := t.Underlying().(*types.Pointer); ok {
+		t = p.Elem()
+	}
+	s := structOf(t)
+	if s == nil {
+		return
+	}
+	for i := 0; i < s.NumFields(); i++ {
+		f := s.Field(i)
+		ef.untargeted(vc.fieldName(t, f))
+		ft := types.Unalias(f.Type())
+		if isStructVal(ft) {
+			vc.objectTypePatterns(ft, ef, depth+1)
+		} else if p, ok := ft.Underlying().(*types.Pointer); ok && structOf(p.Elem()) != nil {
+			vc.objectTypePatterns(p.Elem(), ef, depth+1)
+		} else if sl, ok := ft.Underlying().(*types.Slice); ok {
+			vc.objectTypePatterns(sl.Elem(), ef, depth+1)
+		}
+	}
+}
+
+// havocObjectType havocs every field array of the struct type t points to (and nested rqlite structs).
+func (vc *VC) havocObjectType(st *State, t types.Type, depth int) {
+	if t == nil || depth > 3 {
+		return
+	}
+	t = types.Unalias(t)
+	if p, ok := t.Underlying().(*types.Pointer); ok {
+		t = p.Elem()
+	}
+	s := structOf(t)
+	if s == nil {
+		// pointer to a scalar: box contents (havocked by the caller)
+		return
+	}
+	for i := 0; i < s.NumFields(); i++ {
+		f := s.Field(i)
+		n := vc.fieldName(t, f)
+		if srt, ok := vc.universe[n]; ok {
+			st.heap[n] = vc.fresh(n, srt)
+		}
+		ft := types.Unalias(f.Type())
+		if isStructVal(ft) {
+			vc.havocObjectType(st, ft, depth+1)
+		} else if p, ok := ft.Underlying().(*types.Pointer); ok && structOf(p.Elem()) != nil {
+			vc.havocObjectType(st, p.Elem(), depth+1)
+		} else if sl, ok := ft.Underlying().(*types.Slice); ok {
+			vc.havocObjectType(st, sl.Elem(), depth+1)
+		}
+	}
 }
 
 func shortKey(k string) string {
@@ -694,6 +786,9 @@ func (vc *VC) bindAnchors(fi *FuncInfo, c *FuncContract) {
 			vc.fail("anchor @%s of %s matches no call in %s", gu.Anchor, gu.Var, fi.Key)
 		}
 	}
+	for _, items := range vc.anchored {
+		sort.SliceStable(items, func(a, b int) bool { return items[a].gu.Seq < items[b].gu.Seq })
+	}
 }
 
 func anchorMatch(anchor, txt string) bool {
@@ -703,7 +798,7 @@ func anchorMatch(anchor, txt string) bool {
 	return anchor == txt
 }
 
-func (vc *VC) applyAnchored(st *State, call *ast.CallExpr, it anchoredItem, results []Term) {
+func (vc *VC) applyAnchored(st *State, call *ast.CallExpr, it anchoredItem, results []Term, pre *State) {
 	names := map[string]Val{}
 	for i, r := range results {
 		names[fmt.Sprintf("result%d", i)] = Val{r, nil}
@@ -712,7 +807,12 @@ func (vc *VC) applyAnchored(st *State, call *ast.CallExpr, it anchoredItem, resu
 		}
 	}
 	// call arguments are available as arg0.. (re-evaluated syntactically: pure arguments only)
-	env := &SpecEnv{vc: vc, st: st, old: vc.entryState(), names: names, pkg: vc.fn.Pkg.Types, scopePos: call.Pos(), useLocals: true, callArgs: call.Args}
+	env := &SpecEnv{vc: vc, st: st, old: vc.entryState(), pre: pre, names: names, pkg: vc.fn.Pkg.Types, scopePos: call.Pos(), useLocals: true, callArgs: call.Args}
+	if it.gu.Assume {
+		st.assume(vc.nameTerm("siteassume", vc.specEvalBool(env, it.gu.Expr)))
+		vc.notes[fmt.Sprintf("call-site assumption [%s] at %s: %s", it.gu.Var, it.gu.Anchor, it.gu.Src)]++
+		return
+	}
 	if it.isUpdate {
 		v := vc.specEval(env, it.gu.Expr)
 		vc.setGhost(st, it.gu.Var, v.T)
@@ -855,9 +955,24 @@ func (vc *VC) callEffects(call *ast.CallExpr, ef *effects) {
 	if id, ok := ast.Unparen(call.Fun).(*ast.Ident); ok {
 		if b, ok := info.Uses[id].(*types.Builtin); ok {
 			switch b.Name() {
-			case "append", "copy", "delete", "clear", "make", "new":
-				ef.heapAll = true
+			case "make", "new":
+				vc.allocEffects(info.Types[call].Type, ef)
+			case "append", "copy", "delete", "clear":
 				ef.allocs = true
+				if len(call.Args) > 0 {
+					if t := info.Types[call.Args[0]].Type; t != nil {
+						switch u := types.Unalias(t).Underlying().(type) {
+						case *types.Slice:
+							ef.untargeted(elemsName(sortOfType(u.Elem())))
+						case *types.Map:
+							ks, vs := sortOfType(u.Key()), sortOfType(u.Elem())
+							ef.untargeted(mapDomName(ks, vs))
+							ef.untargeted(mapValName(ks, vs))
+						default:
+							ef.heapAll = true
+						}
+					}
+				}
 			}
 			return
 		}
@@ -869,8 +984,10 @@ func (vc *VC) callEffects(call *ast.CallExpr, ef *effects) {
 						ef.locals[k] = true
 					}
 					for k := range sub.heap {
-						ef.heap[k] = true
+						ef.untargeted(k)
 					}
+					ef.heapExt = ef.heapExt || sub.heapExt
+					ef.patterns = append(ef.patterns, sub.patterns...)
 					for k := range sub.ghosts {
 						ef.ghosts[k] = true
 					}
@@ -887,15 +1004,32 @@ func (vc *VC) callEffects(call *ast.CallExpr, ef *effects) {
 		return
 	}
 	key := funcKey(fn)
-	if libraryPure(key, fn) {
-		return
-	}
 	if c := vc.prog.DB.Funcs[key]; c != nil {
 		for g := range vc.prog.contractGhostAssigns(c) {
 			ef.ghosts[g] = true
 		}
+		if c.WritesArg >= 0 {
+			if c.WritesArg < len(call.Args) {
+				vc.objectTypePatterns(info.Types[call.Args[c.WritesArg]].Type, ef, 0)
+			}
+			ef.patterns = append(ef.patterns, "Elems", "Box")
+			return
+		}
 		if c.Pure || c.NoHeap {
 			return
+		}
+		if c.HasAssigns {
+			star := false
+			for _, a := range c.Assigns {
+				if a == "*" {
+					star = true
+				} else if _, isGhost := vc.prog.DB.Ghosts[a]; !isGhost {
+					ef.patterns = append(ef.patterns, a)
+				}
+			}
+			if !star {
+				return
+			}
 		}
 		if c.Inline {
 			if fi := vc.prog.Funcs[key]; fi != nil {
@@ -911,8 +1045,19 @@ func (vc *VC) callEffects(call *ast.CallExpr, ef *effects) {
 		ef.heapAll = true
 		return
 	}
+	if libraryPure(key, fn) {
+		return
+	}
 	for g := range vc.prog.GhostMods[key] {
 		ef.ghosts[g] = true
+	}
+	pkgPath := ""
+	if fn.Pkg() != nil {
+		pkgPath = fn.Pkg().Path()
+	}
+	if !isRqlitePkg(pkgPath) && !vc.externalMayTouchRqlite(fn, call) {
+		ef.heapExt = true
+		return
 	}
 	ef.heapAll = true
 }
